@@ -1,0 +1,220 @@
+//! Verification hooks. Only compiled with `--cfg metrics_verif`.
+//!
+//! Provides a facade over the std synchronisation types whose every operation is a scheduling
+//! point that an external explorer can intercept. Without installed hooks every call is a no-op
+//! followed by the real operation.
+#![allow(missing_docs)]
+
+use std::sync::atomic::{AtomicPtr, Ordering as O};
+
+/// Hook table installed by the harness.
+pub struct Hooks {
+    pub point: fn(kind: &'static str, addr: usize),
+    pub blocked: fn(addr: usize),
+    pub spin: fn(),
+    pub rng_choice: fn(upper: usize) -> Option<usize>,
+}
+
+static HOOKS: AtomicPtr<Hooks> = AtomicPtr::new(std::ptr::null_mut());
+
+pub fn set_hooks(h: &'static Hooks) {
+    HOOKS.store(h as *const Hooks as *mut Hooks, O::SeqCst);
+}
+
+#[inline]
+fn hooks() -> Option<&'static Hooks> {
+    let p = HOOKS.load(O::Acquire);
+    if p.is_null() { None } else { Some(unsafe { &*p }) }
+}
+
+#[inline]
+pub fn point(kind: &'static str, addr: usize) {
+    if let Some(h) = hooks() { (h.point)(kind, addr) }
+}
+#[inline]
+pub fn blocked(addr: usize) {
+    if let Some(h) = hooks() { (h.blocked)(addr) } else { std::thread::yield_now() }
+}
+#[inline]
+pub fn spin() {
+    if let Some(h) = hooks() { (h.spin)() } else { std::thread::yield_now() }
+}
+#[inline]
+pub fn yield_now() { point("yield", 0) }
+#[inline]
+pub fn rng_choice(upper: usize) -> Option<usize> {
+    if upper == 0 { return None; }
+    hooks().and_then(|h| (h.rng_choice)(upper))
+}
+
+pub mod atomic {
+    pub use std::sync::atomic::Ordering;
+    use super::point;
+
+    macro_rules! int_atomic {
+        ($name:ident, $std:ty, $int:ty) => {
+            #[repr(transparent)]
+            #[derive(Default)]
+            pub struct $name($std);
+            impl std::fmt::Debug for $name {
+                fn fmt(&self, f: &mut std::fmt::Formatter<'_>) -> std::fmt::Result { self.0.fmt(f) }
+            }
+            impl $name {
+                pub const fn new(v: $int) -> Self { Self(<$std>::new(v)) }
+                #[inline] fn a(&self) -> usize { self as *const _ as usize }
+                pub fn load(&self, o: Ordering) -> $int { point("load", self.a()); self.0.load(o) }
+                pub fn store(&self, v: $int, o: Ordering) { point("store", self.a()); self.0.store(v, o) }
+                pub fn swap(&self, v: $int, o: Ordering) -> $int { point("swap", self.a()); self.0.swap(v, o) }
+                pub fn fetch_add(&self, v: $int, o: Ordering) -> $int { point("fetch_add", self.a()); self.0.fetch_add(v, o) }
+                pub fn fetch_sub(&self, v: $int, o: Ordering) -> $int { point("fetch_sub", self.a()); self.0.fetch_sub(v, o) }
+                pub fn fetch_or(&self, v: $int, o: Ordering) -> $int { point("fetch_or", self.a()); self.0.fetch_or(v, o) }
+                pub fn fetch_and(&self, v: $int, o: Ordering) -> $int { point("fetch_and", self.a()); self.0.fetch_and(v, o) }
+                pub fn fetch_max(&self, v: $int, o: Ordering) -> $int { point("fetch_max", self.a()); self.0.fetch_max(v, o) }
+                pub fn compare_exchange(&self, c: $int, n: $int, s: Ordering, f: Ordering) -> Result<$int, $int> {
+                    point("cas", self.a()); self.0.compare_exchange(c, n, s, f)
+                }
+                pub fn compare_exchange_weak(&self, c: $int, n: $int, s: Ordering, f: Ordering) -> Result<$int, $int> {
+                    point("cas", self.a()); self.0.compare_exchange(c, n, s, f)
+                }
+                pub fn fetch_update<F: FnMut($int) -> Option<$int>>(&self, set: Ordering, fetch: Ordering, mut f: F) -> Result<$int, $int> {
+                    let mut prev = self.load(fetch);
+                    while let Some(next) = f(prev) {
+                        match self.compare_exchange_weak(prev, next, set, fetch) {
+                            x @ Ok(_) => return x,
+                            Err(next_prev) => prev = next_prev,
+                        }
+                    }
+                    Err(prev)
+                }
+            }
+        };
+    }
+    int_atomic!(AtomicUsize, std::sync::atomic::AtomicUsize, usize);
+    int_atomic!(AtomicU64, std::sync::atomic::AtomicU64, u64);
+
+    #[repr(transparent)]
+    #[derive(Default)]
+    pub struct AtomicBool(std::sync::atomic::AtomicBool);
+    impl std::fmt::Debug for AtomicBool {
+        fn fmt(&self, f: &mut std::fmt::Formatter<'_>) -> std::fmt::Result { self.0.fmt(f) }
+    }
+    impl AtomicBool {
+        pub const fn new(v: bool) -> Self { Self(std::sync::atomic::AtomicBool::new(v)) }
+        #[inline] fn a(&self) -> usize { self as *const _ as usize }
+        pub fn load(&self, o: Ordering) -> bool { point("load", self.a()); self.0.load(o) }
+        pub fn store(&self, v: bool, o: Ordering) { point("store", self.a()); self.0.store(v, o) }
+        pub fn swap(&self, v: bool, o: Ordering) -> bool { point("swap", self.a()); self.0.swap(v, o) }
+    }
+}
+
+pub mod sync {
+    use super::{blocked, point, spin};
+
+    /// `std::sync::Arc` whose reference-count operations are scheduling points.
+    pub struct Arc<T>(std::mem::ManuallyDrop<std::sync::Arc<T>>);
+    /// `std::sync::Weak` counterpart of [`Arc`].
+    pub struct Weak<T>(std::sync::Weak<T>);
+    impl<T: std::fmt::Debug> std::fmt::Debug for Arc<T> {
+        fn fmt(&self, f: &mut std::fmt::Formatter<'_>) -> std::fmt::Result { self.0.fmt(f) }
+    }
+    impl<T> std::fmt::Debug for Weak<T> {
+        fn fmt(&self, f: &mut std::fmt::Formatter<'_>) -> std::fmt::Result { self.0.fmt(f) }
+    }
+    impl<T> Arc<T> {
+        pub fn new(t: T) -> Self { Arc(std::mem::ManuallyDrop::new(std::sync::Arc::new(t))) }
+        fn a(this: &Self) -> usize { std::sync::Arc::as_ptr(&this.0) as *const () as usize }
+        pub fn downgrade(this: &Self) -> Weak<T> {
+            point("arc_downgrade", Self::a(this));
+            Weak(std::sync::Arc::downgrade(&this.0))
+        }
+        pub fn strong_count(this: &Self) -> usize {
+            point("arc_count", Self::a(this));
+            std::sync::Arc::strong_count(&this.0)
+        }
+        /// A failed unwrap is treated as one iteration of a retry loop: the caller is descheduled
+        /// until another thread makes progress.
+        pub fn try_unwrap(this: Self) -> Result<T, Self> {
+            point("arc_try_unwrap", Self::a(&this));
+            let mut this = this;
+            // SAFETY: `this` is forgotten right after its inner Arc has been taken out.
+            let inner = unsafe { std::mem::ManuallyDrop::take(&mut this.0) };
+            std::mem::forget(this);
+            match std::sync::Arc::try_unwrap(inner) {
+                Ok(t) => Ok(t),
+                Err(inner) => {
+                    spin();
+                    Err(Arc(std::mem::ManuallyDrop::new(inner)))
+                }
+            }
+        }
+    }
+    impl<T> std::ops::Deref for Arc<T> {
+        type Target = T;
+        fn deref(&self) -> &T { &self.0 }
+    }
+    impl<T> Clone for Arc<T> {
+        fn clone(&self) -> Self {
+            point("arc_clone", Self::a(self));
+            Arc(std::mem::ManuallyDrop::new(std::sync::Arc::clone(&self.0)))
+        }
+    }
+    impl<T> Drop for Arc<T> {
+        fn drop(&mut self) {
+            point("arc_drop", Self::a(self));
+            // SAFETY: dropped exactly once, here.
+            unsafe { std::mem::ManuallyDrop::drop(&mut self.0) }
+        }
+    }
+    impl<T> Weak<T> {
+        pub fn upgrade(&self) -> Option<Arc<T>> {
+            point("weak_upgrade", self.0.as_ptr() as *const () as usize);
+            self.0.upgrade().map(|a| Arc(std::mem::ManuallyDrop::new(a)))
+        }
+    }
+    use std::sync::{LockResult, MutexGuard, RwLockReadGuard, RwLockWriteGuard, TryLockError};
+
+    #[derive(Debug, Default)]
+    pub struct RwLock<T>(std::sync::RwLock<T>);
+    impl<T> RwLock<T> {
+        pub fn new(t: T) -> Self { Self(std::sync::RwLock::new(t)) }
+        pub fn read(&self) -> LockResult<RwLockReadGuard<'_, T>> {
+            let a = self as *const _ as usize;
+            point("rdlock", a);
+            loop {
+                match self.0.try_read() {
+                    Err(TryLockError::WouldBlock) => blocked(a),
+                    _ => break,
+                }
+            }
+            self.0.read()
+        }
+        pub fn write(&self) -> LockResult<RwLockWriteGuard<'_, T>> {
+            let a = self as *const _ as usize;
+            point("wrlock", a);
+            loop {
+                match self.0.try_write() {
+                    Err(TryLockError::WouldBlock) => blocked(a),
+                    _ => break,
+                }
+            }
+            self.0.write()
+        }
+    }
+
+    #[derive(Debug, Default)]
+    pub struct Mutex<T>(std::sync::Mutex<T>);
+    impl<T> Mutex<T> {
+        pub const fn new(t: T) -> Self { Self(std::sync::Mutex::new(t)) }
+        pub fn lock(&self) -> LockResult<MutexGuard<'_, T>> {
+            let a = self as *const _ as usize;
+            point("lock", a);
+            loop {
+                match self.0.try_lock() {
+                    Err(TryLockError::WouldBlock) => blocked(a),
+                    _ => break,
+                }
+            }
+            self.0.lock()
+        }
+    }
+}
